@@ -153,7 +153,7 @@ class TickRecorder:
         if not trap:
             for d, idx, t in cur['_w']:
                 prev = d.get(idx, '')
-                cur['st'].append([prev, t])
+                cur['st'].append([prev, t, idx])
                 if prev == '':
                     d[idx] = t
         del cur['_w']
